@@ -16,6 +16,8 @@ import (
 // Replay is the replay file written for a violation.
 type Replay struct {
 	Property   string    `json:"property"`
+	Harness    string    `json:"harness,omitempty"` // registered harness that ran (differs from the property for shared populations, e.g. the cluster)
+	Focus      string    `json:"focus,omitempty"`   // VERIF_FOCUS the run was made with
 	Tier       string    `json:"tier"`
 	Seed       uint64    `json:"seed"`
 	RunIndex   uint64    `json:"run_index"`
@@ -130,8 +132,13 @@ func WorkerMain(t *testing.T) {
 				os.Exit(2)
 			}
 
+			kprop := id
+			if f := os.Getenv("VERIF_FOCUS"); f != "" {
+				kprop = f
+			}
+
 			for _, e := range all.Findings {
-				if e.Property == id && e.Status == "known" {
+				if e.Property == kprop && e.Status == "known" {
 					known = append(known, e)
 				}
 			}
@@ -344,6 +351,10 @@ func shrink(t *testing.T, h *Harness, rs, idx uint64, tier string, words []uint3
 	maxRuns := int(envInt("VERIF_SHRINK_RUNS", 400))
 	runs := 0
 
+	if os.Getenv("VERIF_NOSHRINK") != "" { // development aid
+		maxRuns = 0
+	}
+
 	best := append([]uint32(nil), words...)
 	bestV := v
 
@@ -442,8 +453,13 @@ func shrink(t *testing.T, h *Harness, rs, idx uint64, tier string, words []uint3
 		bestV = v
 	}
 
+	prop := h.ID
+	if f := os.Getenv("VERIF_FOCUS"); f != "" {
+		prop = f
+	}
+
 	return Replay{
-		Property: h.ID, Tier: tier, RunIndex: idx, RunSeed: rs, Tape: best, OrigTapeLen: len(words),
+		Property: prop, Harness: h.ID, Focus: os.Getenv("VERIF_FOCUS"), Tier: tier, RunIndex: idx, RunSeed: rs, Tape: best, OrigTapeLen: len(words),
 		Violation: bestV, Config: o.Run.Cfg, Ops: o.Run.Ops, Events: o.Run.Events,
 		EventHash: fmt.Sprintf("%016x", o.Run.EvHash), ShrinkRuns: runs, GoVersion: runtime.Version(),
 	}
